@@ -379,8 +379,15 @@ func checkC10(c *Ctx) {
 					}
 				}
 				modes := []string{"exit128", "kill", "quiet7"}
+				if t.class == "rev-list" || t.class == "cat-file-batch" || t.class == "cat-file-check" {
+					// a stage of a pipeline killed by SIGPIPE: go-pipe has a special eye for that signal
+					modes = append(modes, "pipe")
+				}
 				if !quick(c) {
-					modes = append(modes, "term", "pipe", "stdinclose")
+					modes = append(modes, "term", "stdinclose")
+					if t.class != "rev-list" && t.class != "cat-file-batch" && t.class != "cat-file-check" {
+						modes = append(modes, "pipe")
+					}
 					if t.class != "config-get" {
 						modes = append(modes, "exit1")
 					}
